@@ -43,8 +43,16 @@ PrefPre == {"video-prefs-vp9rtx", "video-prefs-vp8rtx-h264", "video-prefs-rtxfir
 PrefKind(p) == IF p = "audio-prefs-nopt" THEN "audio" ELSE "video"
 PrefVecs == {[offer |-> <<[kind |-> PrefKind(p), mid |-> "0", dir |-> d, codecs |-> c]>>, pre |-> p, post |-> "none", place |-> "media"] :
                 p \in PrefPre, c \in SCodecs, d \in {"sendrecv", "inactive"}}
+\* every way of labelling an audio + video + application offer with three different mids of the alphabet
+\* (numeric, sparse, non-numeric, in any order), followed by a local addition and a new offer: all of them
+Mid3 == {t \in SMids \X SMids \X SMids : t[1] # t[2] /\ t[2] # t[3] /\ t[1] # t[3]}
+MidVecs == {[offer |-> <<[kind |-> "audio", mid |-> t[1], dir |-> "sendrecv", codecs |-> "supported"],
+                         [kind |-> "video", mid |-> t[2], dir |-> "sendrecv", codecs |-> "supported"],
+                         [kind |-> "application", mid |-> t[3], dir |-> "sendrecv", codecs |-> "supported"]>>,
+             pre |-> "none", post |-> po, place |-> "media"] : t \in Mid3, po \in {"track+offer", "dc+offer"}}
 Init == \/ vec \in RandomSubset(NVec, [offer : Offers, pre : Pre, post : Post, place : Place])
         \/ vec \in PrefVecs
+        \/ vec \in MidVecs
 Next == UNCHANGED vec
 
 \* the intended answer, abstractly: same sections; unusable ones rejected in place
